@@ -1,20 +1,25 @@
 """C06 - OSC encoding round-trips, conforms to OSC 1.0 and is sized correctly.
 
-E1 (bounded-exhaustive input enumeration), four parts, all on the real
-encoder of an NRT-initialised library (the NRT score is the wire: every
-`send_bundle` becomes one score entry holding the datagram the RT interface
-would hand to the socket):
+E1 (bounded-exhaustive input enumeration) in five parts.  Part lib runs on the
+imported, uninitialised library; the others on the real encoder of an
+NRT-initialised library (the NRT score is the wire: every `send_bundle`
+becomes one score entry holding the datagram the RT interface would hand to
+the socket):
 
-* msg    - every message address x argument list (length <= bound) over a
-           value alphabet chosen to hit padding, coercion, nesting and range
+* lib    - `_osclib.OscMessageBuilder` on its own: 4 addresses x <= 2
+           arguments over the plain OSC values.  Also the canary: a tree whose
+           encoder is so broken that `sc3.init('nrt')` fails is reported from
+           here (the NRT parts are then skipped, the run is not exhaustive).
+* msg    - every address x argument list (length <= bound) over a value
+           alphabet chosen to hit padding, coercion, nesting and range
            boundaries;  `_build_msg(...).dgram` is decoded by the independent
-           strict OSC 1.0 reader (mc/oracles/osc10.py) and compared with the
-           values the property statement documents; the library's own
-           `OscPacket` must agree; `_calc_msg_dgram_size` must not be below
-           the real size.
-* bndl   - every bundle nesting up to depth 3 over 2 (thorough: 3) messages x 4 latencies
-           (incl. nested earlier than parent); same comparisons with
-           `_build_bundle` / `_calc_bndl_dgram_size`.
+           strict OSC 1.0 reader (mc/oracles/osc10.py) and compared with what
+           the property statement documents (mc/oracles/osc_client.py); the
+           library's own `OscPacket` must agree; `_calc_msg_dgram_size` must
+           not be below the real size.
+* bndl   - every bundle nesting up to depth 3 over 2 (thorough: 3) messages
+           x 4 latencies (incl. nested earlier than parent); same comparisons
+           with `_build_bundle` / `_calc_bndl_dgram_size`.
 * split  - element lists built from size classes whose total lands on
            limit + {-8,-4,0,4,8}, and many-small families, sent through
            `NetAddr.send_clumped_bundles` and through `NetAddr.sync` (driven
@@ -22,6 +27,11 @@ would hand to the socket):
            datagrams = score entries.
 * drecv  - real SynthDefs whose byte size straddles the limit, sent through
            `SynthDef._do_send` with and without completion messages.
+
+Every lib/msg/bndl case is encoded after a fixed predecessor message and every
+shard starts with a canary (same message before and after a refused one), so
+an encoder that keeps state between messages is reported as a replayable
+disagreement of its own instead of as history-dependent noise.
 
 Don't-cares (the statement does not decide, every answer accepted): refusal
 vs. correct encoding of an empty blob, of a finite float beyond float32 range
